@@ -594,6 +594,17 @@ func (g *Gen) keyCmd() []string {
 	case 12, 13:
 		return []string{g.name("KEYS"), g.pattern()}
 	case 14:
+		if g.chance(2) {
+			// one call over the whole (small) keyspace, with the filters SCAN knows
+			a := []string{g.name("SCAN"), "0", g.kw("COUNT"), "1000"}
+			if g.chance(2) {
+				a = append(a, g.kw("TYPE"), g.pick("string", "list", "hash", "set", "zset"))
+			}
+			if g.chance(3) {
+				a = append(a, g.kw("MATCH"), g.pattern())
+			}
+			return a
+		}
 		return []string{g.name("RANDOMKEY")}
 	case 15, 16:
 		return []string{g.name("DBSIZE")}
